@@ -36,6 +36,7 @@ class FuncRun(ExprMixin, InstrMixin, CallMixin):
         self.mute = 0
         self.recorders = []
         self.key_recorders = []
+        self.dry_fresh_stack = []
         self.frame_counter = 0
         self.regs = {}
         self.heap0 = {}
@@ -53,6 +54,7 @@ class FuncRun(ExprMixin, InstrMixin, CallMixin):
         self.rec_defs = []
         self.rec_depth = 0
         self.strconsts = {}
+        self.asserted_at = set()
         self.iface_static = {}
         self.alloc_refs = []
         self.param_refs = []
@@ -355,14 +357,19 @@ class FuncRun(ExprMixin, InstrMixin, CallMixin):
             self.record_write(('heap', name), m)
             state.heap[name] = T.store(a2, m, T.store(T.select(a2, m), key, v))
 
+    ALLOC0 = T.V('alloc0')
+
     def fresh_ref(self, prefix='ref'):
+        """a reference allocated by this run: above the watermark alloc0 (every reference that exists at entry is
+        at or below it -- a modelling convention, asserted for the parameters) and above all earlier allocations."""
         r = T.fresh(prefix)
+        for d_ in self.dry_fresh_stack:
+            d_.add(r)
         if not self.mute:
-            # allocation order gives pairwise distinctness with one fact per allocation
-            prev = self.alloc_refs[-1] if self.alloc_refs else T.ZERO
+            prev = self.alloc_refs[-1] if self.alloc_refs else self.ALLOC0
             self.hyps.append(T.lt(prev, r))
-            for o in self.param_refs:
-                self.hyps.append(T.not_(T.eq(r, o)))
+            if not self.alloc_refs:
+                self.hyps.append(T.le(T.ZERO, self.ALLOC0))
             self.alloc_refs.append(r)
         return r
 
@@ -627,6 +634,8 @@ class FuncRun(ExprMixin, InstrMixin, CallMixin):
             found = set()
             keys_found = {}
             serial0 = T.counter_peek()
+            dry_fresh = set()
+            self.dry_fresh_stack.append(dry_fresh)
             self.recorders.append(found)
             self.key_recorders.append(keys_found)
             self.mute += 1
@@ -646,6 +655,7 @@ class FuncRun(ExprMixin, InstrMixin, CallMixin):
                 self.mute -= 1
                 self.recorders.pop()
                 self.key_recorders.pop()
+                self.dry_fresh_stack.pop()
             if found <= writes:
                 break
             writes |= found
@@ -662,23 +672,33 @@ class FuncRun(ExprMixin, InstrMixin, CallMixin):
             if ks is None or ('heapall', None) in writes:
                 continue
             ok = True
+            stable = []
+            fresh_too = False
             for k in ks:
+                if k in dry_fresh:
+                    fresh_too = True      # an object allocated inside the loop: invisible below the watermark
+                    continue
                 for vn in T.free_vars(k):
                     if T.var_serial(vn) >= serial0:
                         ok = False
                         break
                 if not ok:
                     break
-            if ok and len(ks) <= 6:
-                stable_keys[name] = sorted(ks, key=repr)
+                stable.append(k)
+            if ok and len(stable) <= 6:
+                stable_keys[name] = (sorted(stable, key=repr), fresh_too)
         for kr in self.key_recorders:
             for name, ks in keys_found.items():
                 if name in stable_keys and kr.get(name, set()) is not None:
                     cur = kr.get(name, set())
-                    cur.update(stable_keys[name])
+                    cur.update(stable_keys[name][0])
+                    if stable_keys[name][1]:
+                        kr[name] = None if False else cur
                     kr[name] = cur
                 else:
                     kr[name] = None
+        for d_ in self.dry_fresh_stack:
+            d_.update(dry_fresh)
         ctx['stable_keys'] = stable_keys
         # 2. invariants: init
         invs = list(lspec.invariants) if lspec else []
@@ -745,8 +765,17 @@ class FuncRun(ExprMixin, InstrMixin, CallMixin):
                 cur = self.heap_get(h, key, None)
                 srt = T.sort_of(cur)
                 if stable_keys and key in stable_keys and ('heapall', None) not in writes:
+                    ks_, fresh_too = stable_keys[key]
                     arr = cur
-                    for kterm in stable_keys[key]:
+                    if fresh_too:
+                        # objects allocated by the loop body may have been written: unknown above the watermark
+                        arr = T.fresh('%s|%s' % (prefix, key), srt)
+                        if not self.mute:
+                            kq = T.fresh_name('k')
+                            kv = T.V(kq)
+                            self.hyps.append(T.forall([(kq, T.INT)], T.implies(T.le(kv, self.ALLOC0),
+                                                                              T.eq(T.select(arr, kv), T.select(cur, kv)))))
+                    for kterm in ks_:
                         arr = T.store(arr, kterm, T.fresh('%s|%s@' % (prefix, key), srt[2]))
                     h.heap[key] = arr
                 else:
